@@ -2687,6 +2687,8 @@ impl Compiler {
 
         // Track prior member names for rewriting identifier references
         let mut prior_members: Vec<JsString> = Vec::new();
+        // Members whose initializer is a string constant (no reverse mapping)
+        let mut string_members: Vec<JsString> = Vec::new();
 
         for member in &decl.members {
             let member_name = member.id.name.cheap_clone();
@@ -2724,29 +2726,19 @@ impl Compiler {
                 value: value_reg,
             });
 
-            // Set reverse mapping for numeric values: EnumName[value] = MemberName
-            // Only for numeric values (not string enums)
-            // We need to check if value is numeric at runtime for mixed enums
+            // Set reverse mapping: EnumName[value] = MemberName, for every member
+            // that is not a string member. As in the TypeScript emit this is
+            // decided by the form of the initializer: a string constant
+            // (literal, template without substitutions, concatenation of
+            // those, reference to an earlier string member) gets no reverse
+            // entry; anything else (constant expression or computed) does.
             let is_numeric = match &member.initializer {
                 None => true,
-                Some(init) => {
-                    // Check for numeric literal
-                    matches!(
-                        init,
-                        crate::ast::Expression::Literal(lit) if matches!(lit.as_ref(), crate::ast::Literal { value: crate::ast::LiteralValue::Number(_), .. })
-                    ) ||
-                    // Check for unary minus of numeric literal (e.g., -10)
-                    matches!(
-                        init,
-                        crate::ast::Expression::Unary(unary)
-                            if unary.operator == crate::ast::UnaryOp::Minus
-                            && matches!(
-                                unary.argument.as_ref(),
-                                crate::ast::Expression::Literal(lit) if matches!(lit.as_ref(), crate::ast::Literal { value: crate::ast::LiteralValue::Number(_), .. })
-                            )
-                    )
-                }
+                Some(init) => !Self::enum_init_is_string(init, &string_members),
             };
+            if !is_numeric {
+                string_members.push(member.id.name.cheap_clone());
+            }
             if is_numeric {
                 // Load the member name as a string value
                 self.builder.emit_load_string(key_reg, member_name)?;
@@ -2765,6 +2757,24 @@ impl Compiler {
         self.builder.free_register(value_reg);
         self.builder.free_register(enum_obj);
         Ok(())
+    }
+
+    /// Whether an enum member initializer is a string constant by its form
+    fn enum_init_is_string(expr: &crate::ast::Expression, string_members: &[JsString]) -> bool {
+        use crate::ast::{BinaryOp, Expression, LiteralValue};
+        match expr {
+            Expression::Literal(lit) => matches!(lit.value, LiteralValue::String(_)),
+            Expression::Template(t) => t.expressions.is_empty(),
+            Expression::Parenthesized(inner, _) => Self::enum_init_is_string(inner, string_members),
+            Expression::Identifier(id) => string_members
+                .iter()
+                .any(|m| m.as_str() == id.name.as_str()),
+            Expression::Binary(bin) if bin.operator == BinaryOp::Add => {
+                Self::enum_init_is_string(&bin.left, string_members)
+                    || Self::enum_init_is_string(&bin.right, string_members)
+            }
+            _ => false,
+        }
     }
 
     /// Compile a namespace declaration
